@@ -254,6 +254,27 @@ fn run_text(c: &TextCase) -> Outcome {
             format!("text \"{}\": from_string fails: {e}", esc(tb)),
         ),
     }
+    // the sibling ways in: from_armor over a reader, and the type-sniffing Any::from_string
+    let via_reader = CleartextSignedMessage::from_armor(doc.as_bytes()).map(|(m, _)| m);
+    let via_any = pgp::composed::Any::from_string(&doc).map_err(|e| e.to_string()).and_then(|(a, _)| match a {
+        pgp::composed::Any::Cleartext(m) => Ok(m),
+        _ => Err("Any::from_string does not classify the document as a cleartext message".to_string()),
+    });
+    for (name, parsed) in [("from_armor", via_reader.map_err(|e| e.to_string())), ("Any::from_string", via_any)] {
+        match parsed {
+            Ok(m3) => {
+                if m3.signed_text() != msg.signed_text() || m3.text() != msg.text() {
+                    o.push(format!("C16:{mark}reread-text-differs"), format!("text \"{}\" through {name}", esc(tb)));
+                }
+                for (i, k) in ks.iter().enumerate() {
+                    if let Err(e) = m3.verify(&k.primary_key.public_key()) {
+                        o.push(format!("C16:{mark}reread-does-not-verify"), format!("text \"{}\" through {name}, signer {i}: {e}", esc(tb)));
+                    }
+                }
+            }
+            Err(e) => o.push(format!("C16:{mark}own-document-rejected"), format!("text \"{}\": {name} fails: {e}", esc(tb))),
+        }
+    }
     o
 }
 
@@ -505,7 +526,7 @@ pub fn check(ctx: &Ctx) {
     ctx.run_space(
         "texts",
         true,
-        "texts = sequences of lines from a 16-line alphabet (dash lines, armor boundary strings, trailing blanks, inner CR, UTF-8, lines ending in FF / NBSP) up to 3 (thorough 5) lines and from a 4-shape sub-alphabet up to 6 (10) lines x line ending {LF,CRLF,mixed} x final {none,newline,lone CR} x {sign v4, sign v6, new SHA-512, new_many 2 signers}: sign -> signed_text = RFC form -> armored -> independent reader sees the text -> from_string -> same text, verifies; non-trivial = text contains '-', blank, TAB or CR",
+        "texts = sequences of lines from a 16-line alphabet (dash lines, armor boundary strings, trailing blanks, inner CR, UTF-8, lines ending in FF / NBSP) up to 3 (thorough 5) lines and from a 4-shape sub-alphabet up to 6 (10) lines x line ending {LF,CRLF,mixed} x final {none,newline,lone CR} x {sign v4, sign v6, new SHA-512, new_many 2 signers}: sign -> signed_text = RFC form -> armored -> independent reader sees the text -> from_string / from_armor / Any::from_string -> same text, verifies; non-trivial = text contains '-', blank, TAB or CR",
         cases.into_par_iter(),
         run_text,
     );
